@@ -4,6 +4,8 @@ import Swat4.Lemmas.Prog
 import Swat4.Lemmas.CleanComplete
 import Swat4.Lemmas.RowInv
 import Swat4.Properties.C11
+import Swat4.Lemmas.TimedInv
+import Swat4.Lemmas.CleanRace
 /-!
 # C14 — Servers expire by the clock: fresh ones are never cleaned, stale ones are
 
@@ -756,6 +758,214 @@ example :
 example : Keyed {} := by intro k row h; simp at h
 example : ∃ (row : SRow) (t : Int), row.svr.refreshedAt = some t ∧ t > 3 :=
   ⟨⟨{ addr := ⟨0, 5⟩, queryPort := 6, status := 6#9, info := [], details := ⟨[], [], []⟩, refreshedAt := some 10, version := 4 }, 10⟩, 10, rfl, by decide⟩
+
+/-! ## `refreshedAt ≤ updatedAt` as an invariant of the system model (reviewer item 8) -/
+
+/-- `RefInv` is the store invariant of `Lemmas/TimedInv.lean` -/
+theorem refInv_iff (s : AbsState) (t : Int) : RefInv s t ↔ TimedInv.Inv s t :=
+  ⟨fun h => ⟨h.1, (allRows_refRow s t).2 ⟨h.2.1, h.2.2⟩⟩,
+   fun h => ⟨h.1, ((allRows_refRow s t).1 h.2).1, ((allRows_refRow s t).1 h.2).2⟩⟩
+
+/-- **every use case walks on a moving clock** (`TimedInv.TPres T`: from clock value `T` on, with the clock free to advance —
+never to go back — between any two of its calls, every record the use case writes and every record its conflict callback
+makes of a stored one was refreshed no later than the clock value at which it is written).  `refLeUpd_preserved` needed the
+clock *fixed* during a use case; a heartbeat whose `Add` commits after a tick is covered only here.  Clients of the system
+model are these programs, possibly after a clock read and followed by a rendering of the result: `TimedInv.tpres_rendered`,
+`TimedInv.tpres_afterNow`. -/
+theorem usecases_walk_on_moving_clock (T : Int) :
+    (∀ z m req, TimedInv.TPres T (UC.report z m req)) ∧
+    (∀ i ip, TimedInv.TPres T (UC.renew i ip)) ∧
+    (∀ i a, TimedInv.TPres T (UC.remove i a)) ∧
+    (∀ prb outcome, TimedInv.TPres T (UC.probe prb outcome)) ∧
+    (∀ m d, TimedInv.TPres T (UC.refresh m d)) ∧
+    (∀ m a b c d e f, TimedInv.TPres T (UC.revive m a b c d e f)) ∧
+    (∀ z m a, TimedInv.TPres T (UC.addServer z m a)) ∧
+    (∀ ret, TimedInv.TPres T (cleanServers ret)) ∧
+    (∀ ret, TimedInv.TPres T (cleanServers2 ret)) ∧
+    (∀ ret, TimedInv.TPres T (cleanInstances ret)) ∧
+    (∀ l st, TimedInv.TPres T (listServers l st)) :=
+  ⟨TimedInv.report_tpres T, TimedInv.renew_tpres T, TimedInv.remove_tpres T, TimedInv.probe_tpres T, TimedInv.refresh_tpres T,
+   TimedInv.revive_tpres T, TimedInv.addServer_tpres T, TimedInv.cleanServers_tpres T, TimedInv.cleanServers2_tpres T,
+   TimedInv.cleanInstances_tpres T, TimedInv.listServers_tpres T⟩
+
+/-- **C14 (`RefLeUpd` is an invariant of the system model).**  For every event list of `USys` — calls of any clients in any
+interleaving, crashes before or after the pending call took effect, storage faults with or without effect, clock ticks with
+non-negative advance — from a state with `RefInv` (rows under their keys, `refreshedAt ≤ updatedAt ≤ clock`; e.g. the empty
+store) whose clients' programs walk (`usecases_walk_on_moving_clock`): `RefInv`, in particular `RefLeUpd`, holds in the state
+reached.  This is the premise of `clean_complete2` on exactly the histories the driver's `race` op runs. -/
+theorem refLeUpd_usys (u : USys) (es : List UEv) (hticks : ∀ e ∈ es, ∀ d, e = .tick d → 0 ≤ d)
+    (h : RefInv u.abs u.clock) (hcl : ∀ c ∈ u.clients, TimedInv.TPres u.clock c.prog) :
+    RefInv (u.run es).abs (u.run es).clock ∧ RefLeUpd (u.run es).abs := by
+  have hes : ∀ e ∈ es, USysInd.EvOK (fun _ => True) e := by
+    intro e he
+    cases e with
+    | tick d => exact hticks _ he d rfl
+    | _ => trivial
+  have := (TimedInv.usys_inv u es hes ((refInv_iff _ _).1 h) hcl).1
+  exact ⟨(refInv_iff _ _).2 this, ((refInv_iff _ _).2 this).2.1⟩
+
+/-- non-vacuity of `refLeUpd_usys`: a system of a heartbeat client, a keepalive client and a cleaner on the empty store -/
+example : RefInv ({ clock := 100, clients := [
+      { prog := (UC.report [] 3 ⟨W.A, 10481, 7, some []⟩).bind fun _ => pure "ok" },
+      { prog := (UC.renew 7 1).bind fun _ => pure "ok" },
+      { prog := (cleanServers2 10).bind fun _ => pure "ok" }] } : USys).abs 100 ∧
+    ∀ c ∈ ({ clock := 100, clients := [
+      { prog := (UC.report [] 3 ⟨W.A, 10481, 7, some []⟩).bind fun _ => pure "ok" },
+      { prog := (UC.renew 7 1).bind fun _ => pure "ok" },
+      { prog := (cleanServers2 10).bind fun _ => pure "ok" }] } : USys).clients, TimedInv.TPres 100 c.prog := by
+  refine ⟨refInv_empty 100, fun c hc => ?_⟩
+  simp only [List.mem_cons, List.not_mem_nil, or_false] at hc
+  rcases hc with rfl | rfl | rfl
+  · exact TimedInv.tpres_rendered (TimedInv.report_tpres 100 _ _ _) _
+  · exact TimedInv.tpres_rendered (TimedInv.renew_tpres 100 _ _) _
+  · exact TimedInv.tpres_rendered (TimedInv.cleanServers2_tpres 100 _) _
+
+/-! ## the cleanup pass inside the system model: `C14_race`'s premise derived from the run -/
+
+theorem guarded_eq (cutoff : Int) (svrs : List Server) : guarded cutoff svrs = CleanRace.guarded cutoff svrs := rfl
+
+/-- **C14 (race, run level).**  Inside any `USys`: client `i` is the cleaner, a started client that has read the clock
+(`cutoff = now − retention` fixed) and is about to scan; every other client never issues a `Remove` and passes stable conflict
+callbacks (`VerMono.ProgStable` — heartbeat, keepalive, probes, REST submission, refresh, revival, listing:
+`C13.usecases_callbacks_stable`).  The cleaner scans; the others do anything (`es1`); the cleaner fetches; then `es`: any
+interleaving of the cleaner's removals with the others' calls, crashes, faults and ticks.  In the state `v` reached:
+
+1. (**the premise of `C14_race`, derived**) the copies `l` the cleaner still has to work through are `Pending`: pairwise
+   different keys, none refreshed after the cutoff, and for each the store holds a row under its key that is that copy or a
+   strictly newer version; hence a row refreshed after the cutoff is strictly newer than every pending copy of its key;
+2. (**a server refreshed after the scan and before its removal is not removed**) whatever the cleaner's next call is, every
+   row that is at that moment refreshed after the cutoff is still stored, unchanged, after it — under every key;
+3. (**a server stale at the scan and untouched since is removed**) if the cleaner's next call is the removal of copy `sv`
+   and the stored row under its key is still `sv`, the row is gone after it. -/
+theorem clean_race_run (u : USys) (i : Nat) (c : UClient) (g : Nat × Nat → String) (cutoff : Int)
+    (hc : u.clients[i]? = some c) (hp : c.prog = C13Run.rendered (CleanRace.afterNow cutoff) g) (hs : c.started = true)
+    (hd : c.dead = false) (hk : Keyed u.abs)
+    (hcl : ∀ (j : Nat) (c' : UClient), j ≠ i → u.clients[j]? = some c' → VerMono.ProgStable c'.prog)
+    (es1 es : List UEv) (hes1 : ∀ e ∈ es1, USysInd.EvOK (C13Run.NotMe i) e) (hes : ∀ e ∈ es, CleanRace.EvC i e)
+    (v : USys) (hv : v = ((((u.step (.call i)).run es1).step (.call i)).run es)) :
+    (∃ (c' : UClient) (l : List Server) (r e : Nat), v.clients[i]? = some c' ∧
+        c'.prog = C13Run.rendered (removeAll cutoff l r e) g ∧ CleanRace.Pending cutoff l v.abs ∧
+        ∀ (k : Nat) (row : SRow) (t : Int), v.abs.servers[k]? = some row → row.svr.refreshedAt = some t → t > cutoff →
+          ∀ sv ∈ l, sv.addr.key = k → sv.version < row.svr.version) ∧
+    (∀ (k : Nat) (row : SRow) (t : Int), v.abs.servers[k]? = some row → row.svr.refreshedAt = some t → t > cutoff →
+      (v.step (.call i)).abs.servers[k]? = some row) ∧
+    (∀ (c' : UClient) (sv : Server) (rest : List Server) (r e : Nat), v.clients[i]? = some c' →
+      c'.prog = C13Run.rendered (removeAll cutoff (sv :: rest) r e) g → c'.started = true → c'.dead = false →
+      ∀ row, v.abs.servers[sv.addr.key]? = some row → row.svr = sv → (v.step (.call i)).abs.servers[sv.addr.key]? = none) := by
+  have h0 := CleanRace.removing_established i g cutoff u c hc hp hs hd hk hcl es1 hes1
+  have h1 := CleanRace.removing_run i g cutoff es _ hes h0
+  rw [← hv] at h1
+  obtain ⟨c', l, r, e, hc', hp', _, _, hpend⟩ := h1.cleaner
+  exact ⟨⟨c', l, r, e, hc', hp', hpend, fun k row t hrow hr ht => hpend.premise k row t hrow hr ht⟩,
+    (CleanRace.removing_spares i g cutoff v h1).1, (CleanRace.removing_spares i g cutoff v h1).2⟩
+
+/-- **`clean_race_run` for a cleaner that has not begun** (the clients of the driver's `race` op start when first scheduled):
+client `i` is `ServerCleaner.Clean` itself, not started; its first scheduling reads the clock — the cutoff is
+`u.clock − retention` — and scans in the same step.  Same three conclusions. -/
+theorem clean_race_run_lazy (u : USys) (i : Nat) (c : UClient) (g : Nat × Nat → String) (retention : Int)
+    (hc : u.clients[i]? = some c) (hp : c.prog = C13Run.rendered (cleanServers2 retention) g) (hs : c.started = false)
+    (hd : c.dead = false) (hk : Keyed u.abs)
+    (hcl : ∀ (j : Nat) (c' : UClient), j ≠ i → u.clients[j]? = some c' → VerMono.ProgStable c'.prog)
+    (es1 es : List UEv) (hes1 : ∀ e ∈ es1, USysInd.EvOK (C13Run.NotMe i) e) (hes : ∀ e ∈ es, CleanRace.EvC i e)
+    (v : USys) (hv : v = ((((u.step (.call i)).run es1).step (.call i)).run es)) :
+    (∃ (c' : UClient) (l : List Server) (r e : Nat), v.clients[i]? = some c' ∧
+        c'.prog = C13Run.rendered (removeAll (u.clock - retention) l r e) g ∧ CleanRace.Pending (u.clock - retention) l v.abs ∧
+        ∀ (k : Nat) (row : SRow) (t : Int), v.abs.servers[k]? = some row → row.svr.refreshedAt = some t → t > u.clock - retention →
+          ∀ sv ∈ l, sv.addr.key = k → sv.version < row.svr.version) ∧
+    (∀ (k : Nat) (row : SRow) (t : Int), v.abs.servers[k]? = some row → row.svr.refreshedAt = some t → t > u.clock - retention →
+      (v.step (.call i)).abs.servers[k]? = some row) ∧
+    (∀ (c' : UClient) (sv : Server) (rest : List Server) (r e : Nat), v.clients[i]? = some c' →
+      c'.prog = C13Run.rendered (removeAll (u.clock - retention) (sv :: rest) r e) g → c'.started = true → c'.dead = false →
+      ∀ row, v.abs.servers[sv.addr.key]? = some row → row.svr = sv → (v.step (.call i)).abs.servers[sv.addr.key]? = none) := by
+  have h0 := CleanRace.removing_established_lazy i g retention u c hc hp hs hd hk hcl es1 hes1
+  have h1 := CleanRace.removing_run i g (u.clock - retention) es _ hes h0
+  rw [← hv] at h1
+  obtain ⟨c', l, r, e, hc', hp', _, _, hpend⟩ := h1.cleaner
+  exact ⟨⟨c', l, r, e, hc', hp', hpend, fun k row t hrow hr ht => hpend.premise k row t hrow hr ht⟩,
+    (CleanRace.removing_spares i g (u.clock - retention) v h1).1, (CleanRace.removing_spares i g (u.clock - retention) v h1).2⟩
+
+/-- `cleanServers2` is: read the clock, then the program `clean_race_run` starts from -/
+theorem cleanServers2_afterNow (retention : Int) :
+    cleanServers2 retention = .call .now fun now => CleanRace.afterNow (now - retention) := rfl
+
+/-- **the restriction "the others never `Remove`" is needed (ABA).**  A's record is removed and registered anew while the
+cleaner holds the copy it fetched (version 3, refreshed at 0): the new registration restarts the version counter (version 1,
+refreshed at 20).  The cleaner's `Remove` with its stale copy (cutoff 10) finds a stored version that is *not* newer, does not
+consult its conflict callback, and **removes the freshly registered server** although it was refreshed after the cutoff.
+`Pending` does not hold (the stored row is neither the copy nor newer) — the model agrees with servers.go:184
+(`existing.Version > svr.Version`, else the `HDEL` batch runs with the caller's copy). -/
+example :
+    let fresh1 : Server := { W.fresh with refreshedAt := some 20, version := 1 }
+    let s : AbsState := { servers := (∅ : ExtTreeMap Nat SRow).insert W.A.key ⟨fresh1, 20⟩ }
+    s.servers[W.A.key]? = some ⟨fresh1, 20⟩ ∧ ¬ CleanRace.Pending 10 [W.staleCopy] s ∧
+      (s.remove W.staleCopy (cleanResolver 10)).1.servers[W.A.key]? = none := by
+  intro fresh1 s
+  have hat : s.servers[W.A.key]? = some ⟨fresh1, 20⟩ := by simp [s]
+  refine ⟨hat, ?_, by decide⟩
+  intro hp
+  obtain ⟨_, row, hrow, hrel⟩ := hp.2 W.staleCopy (List.mem_singleton.2 rfl)
+  have : row = ⟨fresh1, 20⟩ := by
+    have h' : s.servers[W.A.key]? = some row := hrow
+    rw [hat] at h'; cases h'; rfl
+  subst this
+  rcases hrel with h | h
+  · exact absurd h (by decide)
+  · exact absurd (congrArg Server.version h) (by decide)
+
+/-- non-vacuity of `clean_race_run`'s hypotheses, and the theorem at work on a concrete run: A's record (written at 10) is
+stale for a pass at clock 100 with retention 10; the cleaner scans and fetches it; a keepalive then refreshes A (clock 100);
+the cleaner's removal is refused — A is still stored, refreshed at 100 -/
+example :
+    let s0 : AbsState := { W.state with instances := (∅ : ExtTreeMap Nat (Addr × Int)).insert 7 (W.A, 10) }
+    let u : USys := { abs := s0, clock := 100, clients := [
+      { prog := C13Run.rendered (CleanRace.afterNow 90) (fun _ => "ok"), started := true },
+      { prog := (UC.renew 7 1).bind fun _ => pure "ok", started := true }] }
+    Keyed u.abs ∧ (∀ (j : Nat) (c' : UClient), j ≠ 0 → u.clients[j]? = some c' → VerMono.ProgStable c'.prog) ∧
+    (∃ row, (((((u.step (.call 0)).run []).step (.call 0)).run [.call 1, .call 1, .call 1]).step (.call 0)).abs.servers[W.A.key]? = some row ∧
+      row.svr.refreshedAt = some 100) := by
+  intro s0 u
+  refine ⟨W.state_keyed, ?_, ⟨⟨{ W.fresh with refreshedAt := some 100, version := 5 }, 100⟩, by decide, rfl⟩⟩
+  intro j c' hj hc'
+  match j, hj with
+  | 1, _ =>
+    have : c' = { prog := (UC.renew 7 1).bind fun _ => pure "ok", started := true } := by
+      simp only [u, List.getElem?_cons_succ, List.getElem?_cons_zero, Option.some.injEq] at hc'; exact hc'.symm
+    subst this
+    exact VerMono.AllCalls.bind (VerMono.renew_stable 7 1) fun _ => VerMono.AllCalls.pure _
+  | j + 2, _ => simp [u] at hc'
+
+/-! ## a cleaned server disappears with all its index entries (through C10) -/
+
+/-- **C14 ("with all its index entries").**  The storage step by which a `Remove` takes effect is the one `MULTI/EXEC` batch
+`RStore.removeBatch` (C11 `decideApply_refines`: it refines the abstract `erase` — last conjunct).  On a consistent store
+(C10's invariant) the batch leaves a consistent store (`RStore.removeBatch_consistent`, the lemma behind C10's
+`consistent_atomic_step`) in which the cleaned server's record is gone **and so is every index entry of its key**: its
+`servers:updated` score, its `servers:refreshed` score, and its membership in each of the nine `servers:status:*` sets. -/
+theorem clean_removes_index_entries (st : RStore) (h : RStore.Consistent st) (k : Nat) :
+    RStore.Consistent (st.removeBatch k) ∧ (st.removeBatch k).items[k]? = none ∧ k ∉ (st.removeBatch k).updated ∧
+    (st.removeBatch k).refreshed[k]? = none ∧ (∀ b, b < 9 → RStore.stKey k b ∉ (st.removeBatch k).statusSet) ∧
+    ∀ a : AbsState, Rel st a → Rel (st.removeBatch k) { a with servers := a.servers.erase k } := by
+  have hc := RStore.removeBatch_consistent h k
+  have hitem : (st.removeBatch k).items[k]? = none := by simp [RStore.removeBatch]
+  refine ⟨hc, hitem, ?_, ?_, ?_, fun a ha => rel_remove ha k⟩
+  · rw [hc.upd k]
+    intro hm
+    rw [ExtTreeMap.mem_iff_isSome_getElem?, hitem] at hm
+    exact absurd hm (by simp)
+  · cases hr : (st.removeBatch k).refreshed[k]? with
+    | none => rfl
+    | some t =>
+      obtain ⟨r, hr', _⟩ := (hc.ref k t).1 hr
+      rw [hitem] at hr'; cases hr'
+  · intro b hb hm
+    obtain ⟨r, hr', _⟩ := (hc.sts k b hb).1 hm
+    rw [hitem] at hr'; cases hr'
+
+/-- non-vacuity: the empty store is consistent, and so is a store holding one saved server, from which the batch removes it -/
+example : RStore.Consistent {} ∧ RStore.Consistent (({} : RStore).saveBatch W.fresh 10) ∧
+    ((({} : RStore).saveBatch W.fresh 10).removeBatch W.A.key).refreshed[W.A.key]? = none :=
+  ⟨RStore.consistent_empty, RStore.saveBatch_consistent RStore.consistent_empty _ _,
+   (clean_removes_index_entries _ (RStore.saveBatch_consistent RStore.consistent_empty _ _) W.A.key).2.2.2.1⟩
 
 /-- **Configuration wiring (regenerated fact).**  How configuration reaches the cleaner component (retention reaches both cleaners unchanged) and the liveness setting (command line → settings → browser handler / observer): every field of every
 configuration literal in `cmd/swat4master` that concerns this property, with the source text of the value it is given
